@@ -12,15 +12,15 @@
 #define T_HAS_CLEAR 0
 #define T_HAS_AGE 0
 #define T_HAS_UPDTTL 0
-using C = cappuccino::fifo_cache<uint64_t, uint64_t, cappuccino::thread_safe::TS>;
+using C = cappuccino::fifo_cache<uint64_t, VAL_T, cappuccino::thread_safe::TS>;
 #define DECL_C(c) C c(HCAP)
-static bool x_insert(C& c, uint64_t k, uint64_t v, uint8_t a, int64_t) { return c.insert(k, v, (cappuccino::allow)a); }
+static bool x_insert(C& c, uint64_t k, uint64_t v, uint8_t a, int64_t) { return c.insert(k, VAL_T(v), (cappuccino::allow)a); }
 static bool x_erase(C& c, uint64_t k) { return c.erase(k); }
 static void x_find(C& c, uint64_t k, bool, Res& r)
 {
     auto o = c.find(k);
     r.ok   = o.has_value();
-    r.val  = r.ok ? *o : 0;
+    r.val  = r.ok ? val_u(*o) : 0;
     r.cnt  = 0;
 }
 #ifdef VF_REAL
@@ -38,7 +38,7 @@ static void alpha_real(C& c, Abs& a)
                 if (m->second == it)
                     key = m->first;
             a.k[a.n] = key;
-            a.v[a.n] = e.m_value;
+            a.v[a.n] = val_u(e.m_value);
             ++a.n;
         }
     }
